@@ -211,6 +211,7 @@ def operand_cases(rng, n):
         c = {'x': fxm, 'cx': code(fxm), 'y': fym, 'cy': code(fym), 'op': rng.choice('+-*'), 'which': which, 'scale': str(scale), 'bias': str(bias), 'r': rng.choice(RMODES), 'o': rng.choice(OMODES)}
         if which == 'out':
             nwo = rng.choice([8, 12, 16]); c['out'] = [True, nwo, rng.choice([0, 2, nwo // 2])]
+            if rng.random() < 0.4: c['unary'] = rng.choice(['np.conjugate', 'sum_tuple', 'max_tuple', 'sum_plain'])
         cases.append(c)
     return cases
 
@@ -230,7 +231,12 @@ def run_operand(cases, res):
             e = xv + yv if c['op'] == '+' else (xv - yv if c['op'] == '-' else xv * yv)
             if c['which'] == 'out':
                 out = fx.Fxp(None, *c['out'], **skw); out.reset()    # (the initial value 0 is itself transformed and may leave the range: flags are sticky)
-                z = {'+': fx.add, '-': fx.sub, '*': fx.mul}[c['op']](x, y, out=out)
+                if c.get('unary'):
+                    # a ONE-operand function storing x itself into the scaled target (out= as NumPy hands it over - a 1-tuple - or plain)
+                    e = xv
+                    z = {'np.conjugate': lambda: np.conjugate(x, out=out), 'sum_tuple': lambda: fx.sum(x, out=(out,)), 'max_tuple': lambda: fx.fxp_max(x, out=(out,)), 'sum_plain': lambda: fx.sum(x, out=out)}[c['unary']]()
+                else:
+                    z = {'+': fx.add, '-': fx.sub, '*': fx.mul}[c['op']](x, y, out=out)
                 if z is not out:
                     res.fail(c, 'C17: arithmetic through out= did not return the target object', got=str(type(z))); continue
             else:
